@@ -10,7 +10,11 @@ import TboxModel.Util
 import TboxModel.C03.Model
 open Tbox.Util Tbox.C03
 
-def nSlots : Nat := 6
+/-- the descriptors of the harness: six socket pairs on low numbers and two on the numbers 1023 and
+1024 = FD_SETSIZE - 1 and FD_SETSIZE (the numbering is the real one from 1000 on) -/
+def slotList : List Nat := [0, 1, 2, 3, 4, 5, 1023, 1024]
+def fdSetSize : Nat := 1024
+def nFnMax : Nat := 16
 
 def bitsOf (s : State) : String :=
   if s.nEv = 0 then "-" else
@@ -23,6 +27,10 @@ def numLt (w : String) (lim : Nat) : Option Nat := do
   let n ← w.toNat?
   if n < lim then some n else none
 
+def numSlot (w : String) : Option Nat := do
+  let n ← numLt w 2000
+  if slotList.contains n then some n else none
+
 def parseAct (w : String) : Option Act :=
   match w.toList with
   | [] => none
@@ -33,19 +41,21 @@ def parseAct (w : String) : Option Act :=
     | 'i' =>
       match r.splitOn ":" with
       | [e, f, m, o] => do
-        let e ← numLt e 1000; let f ← numLt f nSlots; let m ← numLt m 8
+        let e ← numLt e 1000; let f ← numSlot f; let m ← numLt m 65536
         if o == "o" then some (.init e f m true) else if o == "p" then some (.init e f m false) else none
       | _ => none
     | 'e' => (numLt r 1000).map .enable
     | 'd' => (numLt r 1000).map .disable
     | 'x' => (numLt r 1000).map .destroy
-    | 'c' => (numLt r nSlots).map .close
-    | 'k' => (numLt r nSlots).map .kill
-    | 'o' => (numLt r nSlots).map .oob
-    | 'r' => (numLt r nSlots).map (.setR · true)
-    | 'u' => (numLt r nSlots).map (.setR · false)
-    | 'w' => (numLt r nSlots).map (.setW · true)
-    | 'b' => (numLt r nSlots).map (.setW · false)
+    | 'c' => (numSlot r).map .close
+    | 'k' => (numSlot r).map .kill
+    | 'o' => (numSlot r).map .oob
+    | 'r' => (numSlot r).map (.setR · true)
+    | 'u' => (numSlot r).map (.setR · false)
+    | 'w' => (numSlot r).map (.setW · true)
+    | 'b' => (numSlot r).map (.setW · false)
+    | 't' => (numLt r nFnMax).map .arm
+    | 'n' => (numLt r nFnMax).map .post
     | _ => none
 
 def parseScript (w : String) (self : Nat) : Option (List Act) :=
@@ -68,8 +78,21 @@ def insKey (k : Nat × Nat) : List (Nat × Nat) → List (Nat × Nat)
   | x :: xs => if k.1 < x.1 || (k.1 == x.1 && k.2 ≤ x.2) then k :: x :: xs else x :: insKey k xs
 def sortKeys (l : List (Nat × Nat)) : List (Nat × Nat) := l.foldr insKey []
 
+/-- the two queues of the loop that the model leaves to the acceptor: the one-shot timers that are armed
+(interval 1 ms; the virtual clock advances by 1 ms at every `pass`, before the tasks queued behind the driver task run) and
+`run_next_func_queue_` in posting order, `none` standing for the harness's own driver task -/
+structure Qs where
+  nfn : Nat := 0
+  clock : Nat := 0                    -- virtual milliseconds: every `pass` advances it by 1 before anything else happens
+  armed : List (Nat × Nat) := []      -- (callable, deadline)
+  q : List (Option Nat) := []
+
 structure TAcc where
   s : State := init
+  qs : Qs := {}
+  fns : Array (List Act) := #[]
+  pend : List Nat := []    -- tasks queued behind the driver task in the batch that is being run
+  eintr : Bool := false    -- op `eintr`: the next wait is interrupted
   be : Backend := .epoll
   cur : List PassRec := []
   prev : Option (List PassRec) := none
@@ -95,18 +118,28 @@ def actTags (s : State) : Act → List String
   | .destroy e => if (s.evs e).alive && (s.evs e).enabled then ["destroy-while-enabled"] else []
   | _ => []
 
-def scriptRets (s : State) : List Act → State × String × List String
-  | [] => (s, "", [])
+/-- one API call: the model's `act`, and for `arm`/`post` the acceptor's queues (the harness answers 0
+for a callable that was never defined; `enable()` of an armed one-shot timer changes nothing) -/
+def actQ (s : State) (q : Qs) (x : Act) : (State × Bool) × Qs :=
+  match x with
+  | .arm k => if k < q.nfn then ((s, true), { q with armed := if q.armed.any (·.1 == k) then q.armed else q.armed ++ [(k, q.clock + 1)] })
+              else ((s, false), q)
+  | .post k => if k < q.nfn then ((s, true), { q with q := q.q ++ [some k] }) else ((s, false), q)
+  | _ => (act s x, q)
+
+def scriptRets (s : State) (q : Qs) : List Act → State × Qs × String × List String
+  | [] => (s, q, "", [])
   | x :: xs =>
-    let r := act s x
-    let r2 := scriptRets r.1 xs
-    (r2.1, (if r.2 then "1" else "0") ++ r2.2.1, actTags s x ++ r2.2.2)
+    let r := actQ s q x
+    let r2 := scriptRets r.1.1 r.2 xs
+    (r2.1, r2.2.1, (if r.1.2 then "1" else "0") ++ r2.2.2.1, actTags s x ++ r2.2.2.2)
 
 /-- expected line, the model state just before it (for diagnosis) -/
 abbrev Exp := List (String × State)
 
 structure Rp where
   s : State
+  qs : Qs := {}
   out : Exp := []
   tags : List String := []
 
@@ -116,17 +149,18 @@ def rpEvent (w : Wait) (f m : Nat) (p : Rp) (e : Nat) : Rp :=
   if !r.2 then { p with s := r.1, tags := p.tags ++ (if v.alive then ["mask-miss"] else ["dead-event"]) }
   else
     let l1 := s!"F {e} {m} en={bitsOf r.1}"
-    let sr := scriptRets r.1 v.script
-    let rets := if sr.2.1.isEmpty then "-" else sr.2.1
+    let sr := scriptRets r.1 p.qs v.script
+    let rets := if sr.2.2.1.isEmpty then "-" else sr.2.2.1
     let l2 := s!"E {e} rets={rets} en={bitsOf sr.1}"
     let t := (if v.oneshot then ["oneshot"] else [])
       ++ (if v.script.any (fun x => match x with | .destroy _ => true | _ => false) then ["cb-destroy"] else [])
       ++ (if v.script.any (fun x => match x with | .close _ => true | _ => false) then ["cb-close"] else [])
       ++ (if v.script.any (fun x => match x with | .init _ _ _ _ => true | _ => false) then ["cb-init"] else [])
-      ++ (if (List.range nSlots).any (fun g => sr.1.gen g != r.1.gen g) then ["cb-fd-reuse"] else [])
+      ++ (if slotList.any (fun g => sr.1.gen g != r.1.gen g) then ["cb-fd-reuse"] else [])
       ++ (if sr.1.breach && !r.1.breach then ["cb-close-while-referenced"] else [])
-      ++ (if m &&& 4 != 0 then ["except-ready"] else []) ++ sr.2.2
-    { s := sr.1, out := p.out ++ [(l1, p.s), (l2, r.1)], tags := p.tags ++ t }
+      ++ (if v.script.any (fun x => match x with | .arm _ => true | .post _ => true | _ => false) then ["cb-arm-post"] else [])
+      ++ (if m &&& 4 != 0 then ["except-ready"] else []) ++ sr.2.2.2
+    { s := sr.1, qs := sr.2.1, out := p.out ++ [(l1, p.s), (l2, r.1)], tags := p.tags ++ t }
 
 def rpLoop (w : Wait) (f m : Nat) : Rp → List Nat → Rp
   | p, [] => p
@@ -142,11 +176,25 @@ def rpFd (w : Wait) (p : Rp) (fm : Nat × Nat) : Rp :=
   | none => { p with tags := p.tags ++ [if (p.s.recs fm.1).isSome then "skip-new-record" else "skip-no-record"] }
   | some r => rpLoop w fm.1 fm.2 { p with tags := p.tags ++ (if r.subs.length ≥ 2 then ["shared-fd"] else []) } r.subs
 
-def rpPass (s : State) (ready : List (Nat × Nat)) : Rp :=
-  ready.foldl (rpFd (waitOf s ready)) { s := s, tags := if ready.length ≥ 2 then ["multi-ready"] else [] }
+/-- the dispatch of a turn: snapshot `w` of the wait, started from the state `p` the timer callbacks left -/
+def rpPass (w : Wait) (p : Rp) (ready : List (Nat × Nat)) : Rp :=
+  ready.foldl (rpFd w) { p with tags := p.tags ++ (if ready.length ≥ 2 then ["multi-ready"] else []) }
+
+/-- a timer callback (`kind = "T"`) or a deferred task (`kind = "N"`) running the script of callable `k` -/
+def rpCall (kind : String) (fns : Array (List Act)) (p : Rp) (k : Nat) : Rp :=
+  let sc := fns.getD k []
+  let l1 := s!"{kind}F {k} en={bitsOf p.s}"
+  let sr := scriptRets p.s p.qs sc
+  let rets := if sr.2.2.1.isEmpty then "-" else sr.2.2.1
+  let l2 := s!"{kind}E {k} rets={rets} en={bitsOf sr.1}"
+  let t := (if sc.any (fun x => match x with | .destroy _ => true | _ => false) then [kind ++ "-destroy"] else [])
+    ++ (if slotList.any (fun g => sr.1.gen g != p.s.gen g) then [kind ++ "-fd-reuse"] else [])
+    ++ (if sc.any (fun x => match x with | .arm _ => true | .post _ => true | _ => false) then [kind ++ "-arm-post"] else [])
+    ++ (if p.s.serial != sr.1.serial then [kind ++ "-new-record"] else []) ++ sr.2.2.2
+  { s := sr.1, qs := sr.2.1, out := p.out ++ [(l1, p.s), (l2, p.s)], tags := p.tags ++ t }
 
 def stateDigest (s : State) : String :=
-  let slots := (List.range nSlots).map fun f =>
+  let slots := slotList.map fun f =>
     let subs := match s.recs f with | some r => toString r.subs | none => "-"
     s!"{f}:{actualMask s f}:{s.kern f}:{subs}:{s.isOpen f}"
   let evs := (List.range s.nEv).map fun e =>
@@ -158,11 +206,11 @@ def parseReady (w : String) : Option (List (Nat × Nat)) :=
   if w == "-" then some [] else
   (w.splitOn ",").mapM fun item =>
     match item.splitOn ":" with
-    | [f, m] => do let f ← numLt f nSlots; let m ← numLt m 8; pure (f, m)
+    | [f, m] => do let f ← numSlot f; let m ← numLt m 8; pure (f, m)
     | _ => none
 
 def interestStr (be : Backend) (s : State) : String :=
-  String.ofList ((List.range nSlots).map fun f => Char.ofNat (48 + interest be s f))
+  String.ofList (slotList.map fun f => Char.ofNat (48 + interest be s f))
 
 /-- why a callback the real loop made is not the one the model expects -/
 def diagnose (s : State) (l : String) : String :=
@@ -188,71 +236,120 @@ def matchExp (a : TAcc) : Exp → TAcc
       else fail a s!"in pass: impl=[{l}] model=[{want}]{diagnose sBefore l}"
     | [] => fail a s!"in pass: impl=<missing> model=[{want}]"
 
-def doPass (a : TAcc) : TAcc :=
+def insNat (k : Nat) : List Nat → List Nat
+  | [] => [k]
+  | x :: xs => if k ≤ x then k :: x :: xs else x :: insNat k xs
+def sortNat (l : List Nat) : List Nat := l.foldr insNat []
+
+/-- the order in which the real loop fired the due timers: the `TF k` lines of the timer phase (everything
+up to the first line that is not TF/TE/TM); `none` = the persistent timer of op `tm` -/
+def timerOrder (tl : List String) : List (Option Nat) :=
+  (tl.takeWhile fun l => l == "TM" || l.startsWith "TF " || l.startsWith "TE ").filterMap fun l =>
+    if l == "TM" then some none
+    else match words l with
+      | "TF" :: k :: _ => (k.toNat?).map some
+      | _ => none
+
+def isCbLine (l : String) : Bool :=
+  l.startsWith "F " || l.startsWith "E " || l.startsWith "TF " || l.startsWith "TE " || l.startsWith "NF " ||
+  l.startsWith "NE " || l == "TM"
+
+/-- the tasks queued behind the driver task run as soon as its step returns (same `handleNextFunc`) -/
+def flushPend (a : TAcc) : TAcc :=
+  if a.pend.isEmpty then a else
+  let p := a.pend.foldl (rpCall "N" a.fns) { s := a.s, qs := a.qs }
+  let sm := step a.s (.defer (a.pend.map (a.fns.getD · [])))
+  if bitsOf sm != bitsOf p.s || cbKeys sm != cbKeys p.s then fail a "internal: driver replay diverges from the model's deferred batch" else
+  let a1 := matchExp a p.out
+  if a1.err.isSome then a1 else { a1 with s := p.s, qs := p.qs, pend := [], tags := a1.tags ++ p.tags ++ ["task-behind-driver"] }
+
+def doPass (a0 : TAcc) : TAcc :=
+  -- the driver task re-posts itself, then the rest of the current batch runs, then the loop turns
+  let a := flushPend { a0 with qs := { a0.qs with q := a0.qs.q ++ [none], clock := a0.qs.clock + 1 } }
+  if a.err.isSome then a else
   match a.tl with
   | [] => fail a "pass: no K line from the implementation"
-  | l :: rest0 =>
-    -- loop order: wait, expired timers, fd events, next-funcs: the timer callback comes right after the wait
-    let tmOk := !a.timer || rest0.head? == some "TM"
-    let rest := if a.timer then rest0.drop 1 else rest0
-    if !tmOk then fail a s!"timer armed: expected TM right after the wait, impl=[{rest0.head?.getD "<missing>"}]" else
+  | l :: rest =>
     match words l with
     | ["K", i, r] =>
       let wantI := "i=" ++ interestStr a.be a.s
       if i != wantI then fail a s!"kernel interest at wait: impl=[{i}] model=[{wantI}]" else
       if !r.startsWith "r=" then fail a s!"unparsable K line [{l}]" else
       -- select fails with EBADF iff a closed descriptor is in its sets; then removeInvalidFds runs instead of a dispatch
-      let invalid := (List.range nSlots).filter fun f => (a.s.recs f).isSome && !a.s.isOpen f
-      let badf := a.be == .select && badfTrigger a.s invalid
+      let invalid0 := slotList.filter fun f => (a.s.recs f).isSome && !a.s.isOpen f
+      let badf := a.be == .select && !a.eintr && badfTrigger a.s invalid0
+      if a.eintr != (r == "r=EINTR") then fail a s!"interrupted wait: impl=[{r}] model={if a.eintr then "EINTR" else "no EINTR"}" else
       if badf != (r == "r=EBADF") then
         fail a s!"select EBADF: impl=[{r}] model={if badf then "EBADF expected (a closed descriptor is watched)" else "no EBADF expected"}"
-      else if badf then
-        let s' := removeInvalid a.s invalid
-        let a := { a with cur := a.cur ++ [{ digest := stateDigest a.s, syn := true, order := [], keys := [] }] }
-        match rest with
-        | l2 :: _ =>
-          if l2.startsWith "F " || l2.startsWith "E " then fail a s!"callback in an EBADF pass: impl=[{l2}]"
-          else expectLine { a with tl := rest, s := s', tags := a.tags ++ ["ebadf-pass"] ++
-                  (if invalid.any (fun f => match a.s.recs f with | some r => r.subs.length ≥ 3 | none => false) then ["ebadf-3subs"] else []) }
-                ("P en=" ++ bitsOf s') "after EBADF pass"
-        | [] => fail a "after EBADF pass: impl=<missing>"
       else
-      match parseReady (r.drop 2).toString with
+      match (if badf || a.eintr then some [] else parseReady (r.drop 2).toString) with
       | none => fail a s!"unparsable K line [{l}]"
       | some ready =>
         if !validReady a.be a.s ready then
           fail a s!"ready list [{r}] is not (interest ∩ actual readiness) of distinct descriptors in back-end order"
         else
-          let missing := (List.range nSlots).filter fun f =>
+          let missing := if badf || a.eintr then [] else slotList.filter fun f =>
             (interest a.be a.s f &&& actualMask a.s f) != 0 && !(ready.map (·.1)).contains f
           let full := a.be == .epoll && ready.length ≥ a.maxE
           if a.be == .epoll && ready.length > a.maxE then
             fail a s!"epoll_wait returned {ready.length} events, max_loop_entries is {a.maxE}" else
           if !missing.isEmpty && !full then fail a s!"ready descriptors {missing} missing from the kernel's list [{r}]" else
-          let a := { a with maxE := if full then a.maxE + a.maxE / 2 else a.maxE,
-                            tags := a.tags ++ (if full then ["epoll-grow"] else []) ++ (if full && !missing.isEmpty then ["epoll-truncated"] else []) }
-          let p := rpPass a.s ready
-          let sm := pass a.s ready
-          if bitsOf sm != bitsOf p.s || cbKeys sm != cbKeys p.s then
-            fail a "internal: driver replay diverges from the model's pass"
+          let a := { a with maxE := if full then a.maxE + a.maxE / 2 else a.maxE, eintr := false,
+                            tags := a.tags ++ (if full then ["epoll-grow"] else []) ++ (if full && !missing.isEmpty then ["epoll-truncated"] else [])
+                                      ++ (if a.eintr then ["eintr"] else []) }
+          -- handleExpiredTimers(): every armed timer is due; the heap decides the order among equal deadlines (oracle)
+          let order := timerOrder rest
+          let due := (a.qs.armed.filter (·.2 ≤ a.qs.clock)).map (·.1)
+          let fired := order.filterMap id
+          if sortNat fired != sortNat due then
+            fail a s!"timer phase: impl fired {fired}, due after this wait: {due} (each exactly once, before any descriptor callback)" else
+          if (order.filter (·.isNone)).length != (if a.timer then 1 else 0) then
+            fail a s!"timer armed: expected TM right after the wait, impl=[{rest.head?.getD "<missing>"}]" else
+          -- a one-shot timer is disabled just before its callback runs (TimerEventImpl::onEvent): `enable()` of a due timer
+          -- that has not fired yet changes nothing, of one that has fired arms it for the next turn
+          let p0 : Rp := { s := a.s, qs := a.qs }
+          let p1 := order.foldl (fun p o => match o with
+            | none => { p with out := p.out ++ [("TM", p.s)] }
+            | some k => rpCall "T" a.fns { p with qs := { p.qs with armed := p.qs.armed.filter (·.1 != k) } } k) p0
+          -- the dispatch (snapshot of the wait = state a.s), or removeInvalidFds with the descriptors that are closed NOW
+          let invalid := slotList.filter fun f => (p1.s.recs f).isSome && !p1.s.isOpen f
+          let p2 := if badf then { p1 with s := removeInvalid p1.s invalid } else rpPass (waitOf a.s ready) p1 ready
+          -- handleNextFunc(): the batch up to the driver task; what is queued behind it runs after the driver's step
+          let batch := p2.qs.q
+          let before := (batch.takeWhile (·.isSome)).filterMap id
+          let after := ((batch.dropWhile (·.isSome)).drop 1).filterMap id
+          let p3 := before.foldl (rpCall "N" a.fns) { p2 with qs := { p2.qs with q := [] } }
+          let tmsS := fired.map (a.fns.getD · [])
+          let nxS := before.map (a.fns.getD · [])
+          let st : Step := if badf then .loopBadf invalid0 tmsS invalid nxS else .loop a.be tmsS ready nxS
+          let sm := step a.s st
+          if !valid a.s st then fail a "internal: the turn is not a valid model step" else
+          if bitsOf sm != bitsOf p3.s || cbKeys sm != cbKeys p3.s then
+            fail a "internal: driver replay diverges from the model's turn"
           else
-            let a1 := matchExp { a with tl := rest } p.out
+            let a1 := matchExp { a with tl := rest } p3.out
             if a1.err.isSome then a1 else
             -- anything the loop printed beyond the expected callbacks shows up here
             match a1.tl with
             | l2 :: _ =>
-              if l2.startsWith "F " || l2.startsWith "E " then
-                fail a1 s!"in pass: impl=[{l2}] model=<no further callback>{diagnose p.s l2}"
+              if isCbLine l2 then
+                fail a1 s!"in pass: impl=[{l2}] model=<no further callback>{diagnose p3.s l2}"
               else
-                let ncb := (cbKeys p.s).length - (cbKeys a.s).length
-                let tg := if ncb = 0 then "pass0" else if ncb = 1 then "pass1" else "passN"
+                let ncb := (cbKeys p3.s).length - (cbKeys a.s).length
+                let tg := if badf then "ebadf-pass" else if ncb = 0 then "pass0" else if ncb = 1 then "pass1" else "passN"
                 let tb := if a.be == .select then "select" else "epoll"
-                let syn := OrderIndepSyn a.s ready
-                let pr : PassRec := { digest := stateDigest a.s, syn := syn, order := ready.map (·.1),
-                                      keys := sortKeys ((cbKeys p.s).take ncb) }
-                expectLine { a1 with s := p.s, cur := a1.cur ++ [pr],
-                                     tags := a1.tags ++ p.tags ++ [tg, tb] ++ (if syn && ready.length ≥ 2 then ["order-indep-syn"] else []) }
-                  ("P en=" ++ bitsOf p.s) "after pass"
+                let syn := badf || OrderIndepSyn p1.s ready
+                let pr : PassRec := { digest := stateDigest a.s ++ s!" | {order} {before}", syn := syn, order := ready.map (·.1),
+                                      keys := sortKeys ((cbKeys p3.s).take ncb) }
+                let tt := (if !fired.isEmpty then ["timer-phase"] else []) ++ (if !before.isEmpty then ["next-phase"] else [])
+                  ++ (if !fired.isEmpty && !ready.isEmpty then ["timer+ready"] else [])
+                  ++ (if !fired.isEmpty && ready.any (fun fm => p1.s.gen fm.1 != a.s.gen fm.1) then ["timer-reuses-ready-fd"] else [])
+                  ++ (if ready.any (fun fm => (p1.s.recs fm.1).isSome && (findRec (waitOf a.s ready) p1.s fm.1).isNone) then ["timer-made-record-skipped"] else [])
+                  ++ (if badf && invalid0.any (fun f => match a.s.recs f with | some r => r.subs.length ≥ 3 | none => false) then ["ebadf-3subs"] else [])
+                  ++ (if badf && invalid != invalid0 then ["ebadf-timer-changed-set"] else [])
+                expectLine { a1 with s := p3.s, qs := p3.qs, pend := after, cur := a1.cur ++ [pr],
+                                     tags := a1.tags ++ p3.tags ++ [tg, tb] ++ tt ++ (if syn && ready.length ≥ 2 then ["order-indep-syn"] else []) }
+                  ("P en=" ++ bitsOf p3.s) (if badf then "after EBADF pass" else "after pass")
             | [] => fail a1 "after pass: impl=<missing>"
     | _ => fail a s!"pass: expected a K line, impl=[{l}]"
 
@@ -281,6 +378,13 @@ def stepOp (a : TAcc) (line : String) : TAcc :=
       match r.1 with
       | some msg => fail a msg
       | none => expectLine { a with tags := a.tags ++ r.2 } "P cmp" "cmp"
+  | ["eintr"] =>
+    if a.eintr then expectLine a "bad-op" "malformed op" else expectLine { a with eintr := true } "P eintr" "eintr"
+  | ["fn", sc] =>
+    match (if a.fns.size < nFnMax then parseScript sc 1000000 else none) with
+    | none => expectLine a "bad-op" "malformed op"
+    | some l =>
+      expectLine { a with fns := a.fns.push l, qs := { a.qs with nfn := a.qs.nfn + 1 } } s!"P fn={a.fns.size}" "fn"
   | ["tm"] =>
     if a.timer then expectLine a "bad-op" "malformed op"
     else expectLine { a with timer := true, tags := a.tags ++ ["timer"] } "P tm" "tm"
@@ -297,9 +401,10 @@ def stepOp (a : TAcc) (line : String) : TAcc :=
       expectLine { a with s := s2, tags := a.tags ++ [if n > poolKeep then "bulk>keep" else "bulk"] }
         ("P ret=1 en=" ++ bitsOf s2) "bulk"
   | ["be", k] =>
-    let a := { a with prev := (if a.cur.isEmpty then a.prev else some a.cur), cur := [], maxE := 4, timer := false }
+    let a := { a with prev := (if a.cur.isEmpty then a.prev else some a.cur), cur := [], maxE := 4, timer := false,
+                      qs := {}, fns := #[], pend := [], eintr := false }
     if k == "epoll" then expectLine { a with s := init, be := .epoll } "P be=epoll" "be"
-    else if k == "select" then expectLine { a with s := init, be := .select } "P be=select" "be"
+    else if k == "select" then expectLine { a with s := initL fdSetSize, be := .select } "P be=select" "be"
     else expectLine a "bad-op" "malformed op"
   | ["pass"] => doPass a
   | ["new", sc] =>
@@ -312,13 +417,15 @@ def stepOp (a : TAcc) (line : String) : TAcc :=
     match parseAct x with
     | none => expectLine a "bad-op" "malformed op"
     | some x =>
-      let r := act a.s x
+      let rq := actQ a.s a.qs x
+      let r := rq.1
       let t := actTags a.s x ++ match x with
         | .close f => ["fd-reuse"] ++ (if (a.s.recs f).isSome then ["close-while-referenced"] else [])
         | .kill f => if r.2 then ["kill"] ++ (if (a.s.recs f).isSome then ["close-while-referenced"] else []) else []
         | .oob _ => ["oob"]
+        | .init _ f _ _ => if f ≥ 1023 then [if r.2 then "high-fd-accepted" else "high-fd-refused"] else []
         | _ => []
-      expectLine { a with s := r.1, tags := a.tags ++ t } ("P ret=" ++ (if r.2 then "1" else "0") ++ " en=" ++ bitsOf r.1) "api result"
+      expectLine { a with s := r.1, qs := rq.2, tags := a.tags ++ t } ("P ret=" ++ (if r.2 then "1" else "0") ++ " en=" ++ bitsOf r.1) "api result"
   | _ => expectLine a "bad-op" "malformed op"
 
 structure DS where
